@@ -23,6 +23,8 @@ pub enum Cb {
 }
 
 thread_local! {
+    /// (seq, callback counters before the call) of every sampler call (uniform or goal)
+    static SAMPLE_MARKS: std::cell::RefCell<Vec<(u64, [u64; 4])>> = const { std::cell::RefCell::new(Vec::new()) };
     static SEQ: Cell<u64> = const { Cell::new(0) };
     /// If set: at the callback with this global index, jump the logical clock by JUMP_NS.
     static LAND_AT: Cell<u64> = const { Cell::new(u64::MAX) };
@@ -38,7 +40,12 @@ pub struct WorkCapHit(pub u64);
 #[derive(Debug)]
 pub struct ScriptExhausted(pub &'static str);
 
+pub fn sample_marks() -> Vec<(u64, [u64; 4])> {
+    SAMPLE_MARKS.with(|m| m.borrow().clone())
+}
+
 pub fn seam_reset() {
+    SAMPLE_MARKS.with(|m| m.borrow_mut().clear());
     SEQ.with(|s| s.set(0));
     LAND_AT.with(|s| s.set(u64::MAX));
     LANDED.with(|s| s.set(None));
@@ -76,6 +83,10 @@ fn on_cb(kind: Cb) -> u64 {
         s.set(v + 1);
         v
     });
+    if kind == Cb::Sample || kind == Cb::GoalSample {
+        let before = CB_COUNTS.with(|c| c.get());
+        SAMPLE_MARKS.with(|m| m.borrow_mut().push((j, before)));
+    }
     CB_COUNTS.with(|c| {
         let mut a = c.get();
         a[kind as usize] += 1;
